@@ -25,8 +25,12 @@ CLAIMED = {
 
 # per-property fragments written next to the harness module: harness/props/cxx.manifest.json
 # {"text": ..., "note": ..., "technique": ..., "ref": ...}
+# only properties the coordinator has verified (green on several seeds, mutation-tested) are claimed:
+ACCEPTED = set((ROOT / "tools" / "claimed.txt").read_text().split())
 for frag in sorted((ROOT / "harness" / "props").glob("c*.manifest.json")):
     pid = frag.name.split(".")[0].upper()
+    if pid not in ACCEPTED:
+        continue
     d = json.loads(frag.read_text())
     d["note"] = TB + d.get("note", "")
     CLAIMED[pid] = d
